@@ -15,7 +15,7 @@ func init() {
 	register(&propDef{
 		ID:      "C09",
 		Level:   "other",
-		Explain: "Structural necessary conditions of byte-stream transparency, each quantifying over all segmentations / close orders. The rules are evaluated per TUNNEL: a tcp.Handler implementation of package proxy/tcp that dials (found through the method set, whatever the receiver kind), or the HTTP handler of package proxy that hijacks the client connection (found by what it does, closure or method alike), together with its REGION (the same-package helpers, closures and goroutine bodies it reaches); sites are found by role inside the region, values are compared by object identity across helper parameters, results, captured variables, struct fields (whoever stores them: constructor, method, field assignment) and methods reached through an interface of the repository (c09_flow.go); a struct that is itself a reader (a buffered connection: embedded net.Conn, Read overridden to read through its bufio.Reader) counts as what its Read method reads from. (B1) once a buffered reader (bufio.NewReader, or the ReadWriter returned by Hijack) has been placed over a connection, the raw connection is never used as a copy source afterwards — the reader is — and a hijacked ReadWriter is not discarded; (B2) a tunnel that starts copy goroutines receives as many completions as it started on every path to return, wherever the go statements and the receives live (otherwise the deferred Close of both sides cuts the direction still running: a client that half-closes after sending loses the reply); the obligation is keyed by the tunnel, not by the function that happens to contain the go statements; (B3) copy loops write exactly buf[0:n] with n the count returned by the read of the same buffer in the same iteration, and a short or failed write leaves the loop with an error; a streaming relay writes the bytes a read returned before it looks at the read error; (B4) when the route asks for the PROXY protocol the header is written before any other byte can reach the upstream, and a buffer filled by a consuming read from the client before the tunnel starts (the captured ClientHello) is written to the upstream, whole, before the copy goroutines start; (B5) every tcp.Handler implementation that dials supports the PROXY header option; (W1) every connection wrapper of proxy/tcp (a struct over a net.Conn that implements Read/Write/Close) forwards Read/Write/Close unchanged - to the wrapped connection, or for Read to a reader that was placed over that very connection - and makes no other call of that method on the wrapped connection. (B6) Peek lengths stay within the reader buffer. (B7) no SetLinger(n >= 0) on a tunnel connection (Close would discard queued data); Not decided: byte-for-byte delivery over real sockets (run-time behaviour of the kernel and net package).",
+		Explain: "Structural necessary conditions of byte-stream transparency, each quantifying over all segmentations / close orders. The rules are evaluated per TUNNEL: a tcp.Handler implementation of package proxy/tcp that dials (found through the method set, whatever the receiver kind), or the HTTP handler of package proxy that hijacks the client connection (found by what it does, closure or method alike), together with its REGION (the same-package helpers, closures and goroutine bodies it reaches); sites are found by role inside the region, values are compared by object identity across helper parameters, results, captured variables, struct fields (whoever stores them: constructor, method, field assignment) and methods reached through an interface of the repository (c09_flow.go); a struct that is itself a reader (a buffered connection: embedded net.Conn, Read overridden to read through its bufio.Reader) counts as what its Read method reads from. (B1) once a buffered reader (bufio.NewReader, or the ReadWriter returned by Hijack) has been placed over a connection, the raw connection is never used as a copy source afterwards — the reader is — and a hijacked ReadWriter is not discarded; (B2) a tunnel that starts copy goroutines receives as many completions as it started on every path to return, wherever the go statements and the receives live (otherwise the deferred Close of both sides cuts the direction still running: a client that half-closes after sending loses the reply); the obligation is keyed by the tunnel, not by the function that happens to contain the go statements; (B3) copy loops write exactly buf[0:n] with n the count returned by the read of the same buffer in the same iteration, (a handshake relay that collects one message with several reads into windows buf[n:] writes buf[0:n] once, after its loop, with n the sum of the counts those reads returned), and a short or failed write leaves the loop with an error; a streaming relay writes the bytes a read returned before it looks at the read error; (B4) when the route asks for the PROXY protocol the header is written before any other byte can reach the upstream, and a buffer filled by a consuming read from the client before the tunnel starts (the captured ClientHello) is written to the upstream, whole, before the copy goroutines start; (B5) every tcp.Handler implementation that dials supports the PROXY header option; (W1) every connection wrapper of proxy/tcp (a struct over a net.Conn that implements Read/Write/Close) forwards Read/Write/Close unchanged - to the wrapped connection, or for Read to a reader that was placed over that very connection - and makes no other call of that method on the wrapped connection. (B6) Peek lengths stay within the reader buffer. (B7) no SetLinger(n >= 0) on a tunnel connection (Close would discard queued data); Not decided: byte-for-byte delivery over real sockets (run-time behaviour of the kernel and net package).",
 		Run:     runC09,
 		Trusted: []string{"bufio.Reader returns buffered bytes before reading from the underlying connection", "io.Copy/copyBuffer deliver what Read returns, in order"},
 		Mutants: append(append([]mutant{}, c09mutants...), c09mutants2...),
@@ -33,6 +33,7 @@ type c09relay struct {
 	fn     *ssa.Function
 	rd, wr *ssa.Call
 	sl     *ssa.Slice // the slice expression written, nil when the buffer is written unsliced
+	rsl    *ssa.Slice // the window buf[lo:] the read fills when it reads into a part of the buffer (an accumulating read), else nil
 }
 
 type c09tunnel struct {
@@ -98,6 +99,7 @@ func c09relaysOf(f *ssa.Function) (relays []c09relay, unmatched []*ssa.Call) {
 	type rdSite struct {
 		call  *ssa.Call
 		roots map[c09key]ssa.Value
+		win   *ssa.Slice
 		used  bool
 	}
 	var reads []*rdSite
@@ -107,7 +109,16 @@ func c09relaysOf(f *ssa.Function) (relays []c09relay, unmatched []*ssa.Call) {
 			return
 		}
 		if _, args, ok := c09ioCall(&call.Call, "Read"); ok && len(args) == 1 && c09isByteSlice(args[0].Type()) {
-			reads = append(reads, &rdSite{call: call, roots: c09roots(args[0])})
+			rs := &rdSite{call: call, roots: c09roots(args[0])}
+			// a read into a window of a buffer (`Read(b[n:])`, the accumulating read of a handshake relay) fills that
+			// buffer: the write of (a slice of) the buffer relays it (round 4)
+			if win := c09window(args[0]); win != nil {
+				rs.win = win
+				for k, v := range c09roots(win.X) {
+					rs.roots[k] = v
+				}
+			}
+			reads = append(reads, rs)
 		}
 	})
 	if len(reads) == 0 {
@@ -144,7 +155,7 @@ func c09relaysOf(f *ssa.Function) (relays []c09relay, unmatched []*ssa.Call) {
 			return
 		}
 		hit.used = true
-		relays = append(relays, c09relay{fn: f, rd: hit.call, wr: call, sl: sl})
+		relays = append(relays, c09relay{fn: f, rd: hit.call, wr: call, sl: sl, rsl: hit.win})
 	})
 	for _, r := range reads {
 		if !r.used && !c09forwardingRead(f, r.call) {
@@ -152,6 +163,30 @@ func c09relaysOf(f *ssa.Function) (relays []c09relay, unmatched []*ssa.Call) {
 		}
 	}
 	return relays, unmatched
+}
+
+// c09window: v is a slice expression x[lo:] / x[lo:hi] (lo present and not the constant 0) over a byte buffer x, or a loop
+// variable that is assigned one: a window of a buffer. (make([]byte, K) is itself a Slice of an array in SSA and `b[:n]` has no low bound: neither is a window.)
+func c09window(v ssa.Value) *ssa.Slice {
+	if phi, ok := v.(*ssa.Phi); ok {
+		// a buffer variable of the loop that holds the rest of the buffer: `for rest := b; ...; rest = b[n:]`
+		for _, e := range phi.Edges {
+			if _, isPhi := e.(*ssa.Phi); !isPhi {
+				if w := c09window(e); w != nil {
+					return w
+				}
+			}
+		}
+		return nil
+	}
+	sl, ok := v.(*ssa.Slice)
+	if !ok || sl.Low == nil || isZero(sl.Low) {
+		return nil
+	}
+	if !c09isByteBuf(sl.X.Type()) {
+		return nil
+	}
+	return sl
 }
 
 // c09forwardingRead: f is itself an io.Reader's Read method and rd fills f's own buffer parameter: the Read of a
